@@ -25,8 +25,16 @@ def gen(rng, tier):
         idx_kind = rng.choice(["dup", "float", "str", "rev"])
         colperm = list(range(len(fr["columns"])))
         rng.shuffle(colperm)
+        kind = "random"
+        if rng.random() < 0.4:
+            # missing values in used columns: the rows dropped must not depend on the index labels
+            kind = "with-missing"
+            for c in fr["columns"]:
+                if c["name"] in ("x", "z", "w", "f", "y") and rng.random() < 0.5:
+                    for r in rng.sample(range(nrows), rng.randint(1, max(1, nrows // 5))):
+                        c["values"][r] = None
         cases.append({"formula": gen_dm.rand_formula(rng, with_group=0.4), "frame": fr, "na": "drop", "perm": perm,
-                      "index": idx_kind, "colperm": colperm, "kind": "random"})
+                      "index": idx_kind, "colperm": colperm, "kind": kind})
     return cases
 
 
@@ -56,14 +64,18 @@ def _variants(c):
     return out
 
 
-def _unpermute(obs, rowmap):
-    """rows of every matrix of an observation put back in base order"""
-    inv = [0] * len(rowmap)
-    for i, b in enumerate(rowmap):
-        inv[b] = i
+def _unpermute(obs, rowmap, kept=None):
+    """rows of every matrix of an observation put back in base order; kept = base rows that survive
+    the missing-value policy (the variant holds them in the order rowmap lists them)"""
+    if kept is None:
+        kept = set(range(len(rowmap)))
+    order = [b for b in rowmap if b in kept]          # base row of each row of the variant's matrices
+    pos = {b: i for i, b in enumerate(order)}
 
     def fix(rows):
-        return [rows[inv[b]] for b in range(len(rows))]
+        if len(rows) != len(order):
+            return rows                                # a different number of rows: compared as is (will differ)
+        return [rows[pos[b]] for b in sorted(pos)]
 
     resp, common, group = obs
     if resp:
@@ -79,10 +91,19 @@ def impl_obs(c):
     except Exception as e:  # noqa
         base = ["err", type(e).__name__, str(e)[:120]]
     vs = []
+    kept = None
+    try:
+        from formulae import model_description
+        df0 = dm.to_pandas(c["frame"])
+        used = [v for v in model_description(c["formula"]).var_names if v in df0.columns]
+        inc = df0[used].isna().any(axis=1).to_numpy() if used else []
+        kept = set(i for i in range(len(df0)) if not (len(inc) and inc[i]))
+    except Exception:
+        kept = None
     for name, fr, rowmap in _variants(c):
         try:
             o = dm.observe_design(dm.build(dict(c, frame=fr)))
-            vs.append([name, "ok", _unpermute(o, rowmap)])
+            vs.append([name, "ok", _unpermute(o, rowmap, kept)])
         except Exception as e:  # noqa
             vs.append([name, "err", type(e).__name__])
     return base + [vs] if base[0] == "ok" else ["err", base[1], base[2], vs]
